@@ -150,6 +150,29 @@ def main(tier: str) -> int:
                     "parse_jelly_to_graph": _safe(impl.parse, "rdflib", data, "to_graph"),
                     "parse_jelly_flat": _safe(impl.parse, "rdflib", data, "flat"),
                 }
+    # a graph large enough to assign the LAST id of 4096-entry tables (and to cross the one-byte varint limit of ids)
+    for preset, nn in (((4096, 150, 32), 4200), ((129, 16, 4), 300)):
+        I_ = lambda x: ("iri", x)  # noqa: E731
+        stmts = [(I_(f"http://p{i % 140}.example/ns/n{i}"), I_(f"http://p{i % 7}.example/ns/pred{i % 11}"),
+                  (("lit", str(i), "", f"http://dt.example/t{i % 40}") if i % 3 == 0 else I_(f"http://p{(i + 1) % 140}.example/ns/n{(i * 5 + 2) % nn}"))) for i in range(nn)]
+        store = build_store(stmts, False, False)
+        want = impl._items_of_rdflib_store(store)
+        cfg = impl.default_cfg(integ="rdflib", entry="graph_serialize", sclass="triple", ltype=1, preset=preset, gen=False, star=False, frame_size=250)
+        key = {"universe": f"long-{preset[0]}", "entry": "graph_serialize", "sclass": "triple", "ltype": "FLAT_TRIPLES", "delimited": True, "sub": "none", "raw_lex": False}
+        rp = {"cfg": cfg, "statements": f"{nn} generated statements"}
+        out = io.BytesIO()
+        try:
+            opts = impl.make_options(cfg)
+            store.serialize(destination=out, format="jelly", options=opts, stream=impl.make_stream(cfg, opts))
+            data = out.getvalue()
+            frames = wire.dec_stream(data, delimited=True)
+        except Exception as ex:  # noqa: BLE001
+            run.violation({"clause": "serializer-raised", **key}, f"{type(ex).__name__}: {ex}", rp)
+            continue
+        case = {"key": key, "rp": rp, "want": want, "data": data, "dataset": False}
+        cases.append(case)
+        traces.append({"id": len(cases) - 1, "rows": terms.jrows_of_frames(frames), "mode": "set", "exp": [terms.jitem(terms.norm_item(x)) for x in dict.fromkeys(want)]})
+        case["back"] = {"Graph.parse": _safe(parse_into_store, data, False), "parse_jelly_flat": _safe(impl.parse, "rdflib", data, "flat")}
     verdicts = tlc.judge(traces)
     jst = verdicts.pop("__stats__")
     samples = []
